@@ -205,6 +205,10 @@ type Check struct {
 	SameFinding func(found, replayed string) bool
 	// MinRepro is the number of the 5 replays that must confirm a finding (default 5).
 	MinRepro int
+	// MinReproFor, when set and > 0 for a signature, replaces MinRepro for that signature. For oracles that
+	// state determinism ("identical across runs") a finding that comes back in some replays and not in
+	// others is itself what the oracle forbids.
+	MinReproFor func(sig string) int
 	// MaxWorkers caps the number of worker processes (0 = NumCPU).
 	MaxWorkers int
 	// Bounds describes the alphabet and size bounds of a tier for the evidence.
@@ -687,6 +691,11 @@ func parentMain(c *Check, tier string, jobs int) int {
 			need := tries
 			if c.MinRepro > 0 && c.MinRepro < need {
 				need = c.MinRepro
+			}
+			if c.MinReproFor != nil {
+				if n := c.MinReproFor(s); n > 0 && n < need {
+					need = n
+				}
 			}
 			if okN < need && okN == 0 && f.Unit != "" && !strings.HasPrefix(s, "hang:") {
 				// The case alone does not reproduce in a fresh process. The code under test may keep
